@@ -27,9 +27,12 @@ def jBracket (b : Bracket) : Json :=
         ("rungs", jArr (b.rungs.map (fun r => jArr [jNat r.level, jArr (r.slots.map jSlot)])
                         ++ b.todo.map (fun r => jArr [jNat r.2, jNat r.1])))]
 
-def jMgr (g : Manager) : List (String × Json) :=
+/-- the manager's state; only the brackets from index `from_` on are printed (the ones below
+the primary bracket at the start of the operation are complete and never change) -/
+def jMgr (g : Manager) (from_ : Nat := 0) : List (String × Json) :=
   [("primary", jNat g.primary), ("offsets", jArr (g.idToOffset.map jNat)),
-   ("brackets", jArr (g.brackets.map jBracket))]
+   ("num_brackets", jNat g.brackets.length), ("first_shown", jNat (min from_ g.brackets.length)),
+   ("brackets", jArr ((g.brackets.drop from_).map jBracket))]
 
 def jOptList : Option (List (Option Nat)) → Json
   | none => Json.null
@@ -39,8 +42,8 @@ def insertSorted (x : Nat) : List Nat → List Nat
   | [] => [x]
   | y :: ys => if x ≤ y then x :: y :: ys else y :: insertSorted x ys
 
-def jSched (s : Sched) : List (String × Json) :=
-  jMgr s.mgr ++
+def jSched (s : Sched) (from_ : Nat := 0) : List (String × Json) :=
+  jMgr s.mgr from_ ++
   [("pending", jArr (s.pending.map fun (t, (b, sl)) =>
       jArr [jNat t, jNat b, jNat sl.rungIndex, jNat sl.level, jNat sl.slotIndex, jOptNat sl.tid])),
    ("removable", jArr (s.removable.map jOptNat)),
@@ -120,13 +123,13 @@ def mgrStep (g : Manager) (j : Json) : Except String (Manager × Json) := do
   if op == "next_job" then
     let (g', id, sl) ← liftE g.nextJob
     return (g', jOut (jObj ([("bracket", jNat id),
-      ("slot", jArr [jNat sl.rungIndex, jNat sl.level, jNat sl.slotIndex, jOptNat sl.tid])] ++ jMgr g')))
+      ("slot", jArr [jNat sl.rungIndex, jNat sl.level, jNat sl.slotIndex, jOptNat sl.tid])] ++ jMgr g' g.primary)))
   else if op == "on_result" then
     let res : SlotInRung := { rungIndex := ← getNat j "rung_index", level := ← getNat j "level",
                               slotIndex := ← getNat j "slot_index", tid := ← getOptNat j "trial_id",
                               metric := (if hasKey j "metric" then (match getMetric j "metric" with | .ok m => some m | .error _ => none) else none) }
     let (g', np) ← liftE (g.onResult (← getNat j "bracket") res)
-    return (g', jOut (jObj ([("not_promoted", jOptList np)] ++ jMgr g')))
+    return (g', jOut (jObj ([("not_promoted", jOptList np)] ++ jMgr g' g.primary)))
   else if op == "level_to_prev_level" then
     let p ← liftE (g.levelToPrevLevel (← getNat j "bracket") (← getNat j "level"))
     return (g, jOut (jObj [("prev", jNat p)]))
@@ -148,22 +151,22 @@ def schedStep (s : Sched) (j : Json) : Except String (Sched × Json) := do
   let op ← getStr j "op"
   if op == "suggest" then
     let (s', sg, calls) ← liftE (s.suggest (← getNat j "trial_id") (getBoolD j "has_config" true))
-    return (s', jOut (jObj ([("suggestion", jSuggestion sg), ("calls", jArr (calls.map jCall))] ++ jSched s')))
+    return (s', jOut (jObj ([("suggestion", jSuggestion sg), ("calls", jArr (calls.map jCall))] ++ jSched s' s.mgr.primary)))
   else if op == "result" then
     let (s', d, calls) ← liftE (s.onResult (← getNat j "trial") (← getNat j "resource") (← getMetric j "metric"))
-    return (s', jOut (jObj ([("decision", Json.str d.toString), ("calls", jArr (calls.map jCall))] ++ jSched s')))
+    return (s', jOut (jObj ([("decision", Json.str d.toString), ("calls", jArr (calls.map jCall))] ++ jSched s' s.mgr.primary)))
   else if op == "error" then
     let (s', calls) ← liftE (s.onError (← getNat j "trial"))
-    return (s', jOut (jObj ([("calls", jArr (calls.map jCall))] ++ jSched s')))
+    return (s', jOut (jObj ([("calls", jArr (calls.map jCall))] ++ jSched s' s.mgr.primary)))
   else if op == "complete" then
     let (s', calls) := s.onComplete (← getNat j "trial") (← getNat j "resource") (← getMetric j "metric")
-    return (s', jOut (jObj ([("calls", jArr (calls.map jCall))] ++ jSched s')))
+    return (s', jOut (jObj ([("calls", jArr (calls.map jCall))] ++ jSched s' s.mgr.primary)))
   else if op == "remove" then
     let s' := s.onRemove (← getNat j "trial")
-    return (s', jOut (jObj (jSched s')))
+    return (s', jOut (jObj (jSched s' s.mgr.primary)))
   else if op == "take_removable" then
     let (s', l) := s.takeRemovable
-    return (s', jOut (jObj ([("removed", jArr (l.map jOptNat))] ++ jSched s')))
+    return (s', jOut (jObj ([("removed", jArr (l.map jOptNat))] ++ jSched s' s.mgr.primary)))
   else throw s!"bad-op {op}"
 
 def syncStep (st : St) (j : Json) : Except String (St × Json) :=
